@@ -1,5 +1,6 @@
-(* (d) The models of Model/GlobalRw.v evaluated on one input per mutator, and the inputs that show that the
-   hypotheses of the well-formedness theorems of Wf.v are needed. *)
+(* (d) The models of Model/GlobalRw.v evaluated on one input per mutator; a string literal / comment in the place of
+   the name (nothing is proposed), and the inputs that show that the hypothesis "the node is well formed" of the
+   well-formedness theorems of Wf.v is needed. *)
 From DD Require Import Model.Rewrites Model.GlobalRw Spec.StdReader Proofs.More4.Base.
 Local Open Scope list_scope.
 
@@ -114,23 +115,43 @@ Example ex_remove_datatype :
   = Some [GS [([3; 1; 0]%nat, None); ([3; 2; 0]%nat, None)] [] []; GS [([3; 1; 1]%nat, None); ([3; 2; 1]%nat, None)] [] []].
 Proof. vm_compute. reflexivity. Qed.
 
-(* ---- the hypothesis "the name is an atom" of the well-formedness theorems is needed ---- *)
-(* (declare-const "x" (_ BitVec 8)): the declared name is _"x", which a reader takes for the two tokens _ and "x" *)
+(* ---- a string literal or a comment in the place of the name: nothing is proposed ---- *)
+(* (before the guards: (declare-const "x" (_ BitVec 8)) gave the declared name _"x", which a reader takes for the two
+   tokens _ and "x"; (str.contains <comment> t) gave the comment text followed by _prefix / _suffix) *)
 Definition q_x : str := 34%N :: lit "x" ++ [34%N].
+Definition cmt : str := lit "; c" ++ [10%N].
 Example ex_reduce_bw_string_name :
   wf (T [lf "declare-const"; L q_x; bv "8"]) = true /\
-  match rw_bv_reduce_bw (one_sort (L q_x) (bv "8")) (fun _ => Some 8%Z) (names []) [0]%nat (T [lf "declare-const"; L q_x; bv "8"]) with
-  | Some (GS _ _ [d] :: _) => d = T [lf "declare-const"; L (95%N :: q_x); bv "1"] /\ wf d = false
+  rw_bv_reduce_bw (one_sort (L q_x) (bv "8")) (fun _ => Some 8%Z) (names []) [0]%nat (T [lf "declare-const"; L q_x; bv "8"])
+  = Some [].
+Proof. vm_compute. repeat split; reflexivity. Qed.
+
+Example ex_reduce_bw_comment_name :
+  wf (T [lf "declare-const"; L cmt; bv "8"]) = true /\
+  rw_bv_reduce_bw (one_sort (L cmt) (bv "8")) (fun _ => Some 8%Z) (names []) [0]%nat (T [lf "declare-const"; L cmt; bv "8"])
+  = Some [].
+Proof. vm_compute. repeat split; reflexivity. Qed.
+
+Example ex_str_contains_comment :
+  wf (T [lf "str.contains"; L cmt; lf "t"]) = true /\
+  rw_str_contains (names []) (T [lf "str.contains"; L cmt; lf "t"]) = Some [].
+Proof. vm_compute. repeat split; reflexivity. Qed.
+
+(* ---- without well-formedness of the node the declarations need not be well formed: a leaf that is no token (an
+   unterminated quoted symbol |x) passes all guards ---- *)
+Definition bar_x : str := 124%N :: lit "x".
+Example ex_reduce_bw_not_wf_node :
+  wf (T [lf "declare-const"; L bar_x; bv "8"]) = false /\
+  match rw_bv_reduce_bw (one_sort (L bar_x) (bv "8")) (fun _ => Some 8%Z) (names []) [0]%nat (T [lf "declare-const"; L bar_x; bv "8"]) with
+  | Some (GS _ _ [d] :: _) => d = T [lf "declare-const"; L (95%N :: bar_x); bv "1"] /\ wf d = false
   | _ => False
   end.
 Proof. vm_compute. repeat split; reflexivity. Qed.
 
-(* (str.contains <comment> t): the declared names are the comment text followed by _prefix / _suffix *)
-Definition cmt : str := lit "; c" ++ [10%N].
-Example ex_str_contains_comment :
-  wf (T [lf "str.contains"; L cmt; lf "t"]) = true /\
-  match rw_str_contains (names []) (T [lf "str.contains"; L cmt; lf "t"]) with
-  | Some [GS _ _ [d1; d2]] => d1 = T [lf "declare-const"; L (cmt ++ lit "_prefix"); lf "String"] /\ wf d1 = false /\ wf d2 = false
+Example ex_str_contains_not_wf_node :
+  wf (T [lf "str.contains"; L bar_x; lf "t"]) = false /\
+  match rw_str_contains (names []) (T [lf "str.contains"; L bar_x; lf "t"]) with
+  | Some [GS _ _ [d1; d2]] => d1 = T [lf "declare-const"; L (bar_x ++ lit "_prefix"); lf "String"] /\ wf d1 = false /\ wf d2 = false
   | _ => False
   end.
 Proof. vm_compute. repeat split; reflexivity. Qed.
